@@ -84,7 +84,9 @@ PROP = dict(
         "(the theorems hold for every split tree; the runs use the sequential one)",
     ],
     assumptions=[
-        "coordinates are finite f64 whose binary32 image is finite (not NaN) ; weights are non-negative i64 (or integer-valued f64) whose sum does not overflow",
+        "coordinates are finite f64 (the binary32 image may be infinite: the tree property is still checked; the theorems need it not to be NaN); "
+        "weights are non-negative i64 (or integer-valued f64) whose sum does not overflow",
+        "the run executes rcb_core with the trie-based stores scatter_fast, proved equal to the sequential stores (scatter_fast_eq, Proofs/RcbProofs.v)",
         "rayon fold/reduce call the closures on a split tree of the index range; join runs both closures",
         "C03_rcb_total has the decidable premise box_ok32 (the root box has finite canonical bounds enclosing the binary32 coordinates), "
         "evaluated on every in-contract case by Run/RunC03.v (a false counts as a correspondence failure); its fuel bound 2^33 is a "
